@@ -31,6 +31,9 @@ func CRLIssuer() (*x509.Certificate, *Ent) {
 func MintCRL(number int64, nextUpdate time.Time, padBytes int) *x509.RevocationList {
 	iss, ent := CRLIssuer()
 	tmpl := &x509.RevocationList{Number: big.NewInt(number), ThisUpdate: time.Now().Add(-20 * 365 * 24 * time.Hour), NextUpdate: nextUpdate}
+	if nextUpdate.IsZero() {
+		tmpl.ThisUpdate = time.Time{} // (crypto/x509 leaves the optional nextUpdate out only if thisUpdate is not after it)
+	}
 	n := padBytes / 37
 	for i := 0; i < n; i++ {
 		tmpl.RevokedCertificateEntries = append(tmpl.RevokedCertificateEntries, x509.RevocationListEntry{
